@@ -485,7 +485,7 @@ class Check:
     def violation(self, key, what, replay):
         """key: specific signature (used to match known findings)."""
         for k in self.kf:
-            if k["key"] == key or (k.get("key_prefix") and key.startswith(k["key_prefix"])):
+            if k.get("key") == key or (k.get("key_prefix") and key.startswith(k["key_prefix"])):
                 if k not in self.known_hits:
                     self.known_hits.append(k)
                 return False
